@@ -83,7 +83,7 @@ DType(node) ==
 
 \* ---- paths ---------------------------------------------------------------
 Idx(i) == "[" \o ToString(i) \o "]"
-IdxSegs == {Idx(i) : i \in 0..63}
+IdxSegs == {Idx(i) : i \in 0..199}
 IsIdx(s) == s \in IdxSegs
 
 \* C10 path grammar: keys joined by '.', slice positions written [i] without a dot
